@@ -79,6 +79,17 @@ class C15(C06):
             reqs = [r for r in reqs if not r.startswith((hx("p0") + ":", hx("p1") + ":", hx("p2") + ":"))] if rng.random() < 0.5 else reqs
             reqs = head + reqs + [custom("ok0")]          # the last request is the warm-up: the custom kind exists
             warm = 1
+        if warm == 0 and not pooled and rng.random() < 0.5:
+            # COLD cache, and the first request of EVERY thread (threads start at requests 0, 3, 6, ...) is a custom value of
+            # one formatter kind with per-instance state (`cnt…`: numbers its uses): the kind's first-ever use happens on all
+            # threads at once, with different argument sets; afterwards every thread uses every tag
+            def cnt(tag, dtag):
+                return "%s:~:%s=i1&%s=%s&%s=%s" % (hx("p4"), hx("n"), hx("c"), "m" + hx(tag), hx("d"), "m" + hx(dtag))
+            tags = ["cnt%d" % i for i in range(th)]
+            head = []
+            for i in range(th):
+                head += [cnt(tags[i], tags[(i + 1) % th]), cnt(tags[(i + 2) % th], tags[i]), cnt(tags[i], "ok1")]
+            reqs = head + reqs
         body = "a:%s %s %s" % (hx(res), ",".join(resgen.FUNCS), ",".join(reqs))
         parts = []
         for loc in locs:
@@ -95,12 +106,17 @@ class C15(C06):
                 "p1 = { NUMBER($n, type: \"ordinal\") ->\n [one] st\n [two] nd\n [few] rd\n *[other] th\n }\n"
                 "p2 = { $n } { $c }\n")
         l1, l2 = rng.sample(["en", "pl", "ru", "ar", "cs", "fr", "lt", "xx+pl", "ja"], 2)
+        sibling = rng.random() < 0.3
+        if sibling:
+            # the SAME language in two regions whose plural rules differ (pt: 0 is `one`; pt-PT: 0 is `other`), both bundles
+            # alive at the same time: formatters are per bundle (per locale), not per language
+            l1, l2 = rng.choice([("pt", "pt-PT"), ("pt-PT", "pt"), ("pt-PT", "pt-BR")])
         reqs = []
         # mostly ONE rule kind per line: the last formatter constructed in a round is then of the kind the next round's
         # first request needs (a process-wide "last used" cache is hit by one bundle while the other replaces it)
         kinds = [rng.choice(["p0", "p1"])] * 2 + ["p2"] if rng.random() < 0.7 else rng.sample(["p0", "p1", "p0", "p1", "p2"], 4)
         for m in kinds:
-            reqs.append("%s:~:%s=%s&%s=%s" % (hx(m), hx("n"), rng.choice(["i2", "i3", "i5", "i22", "i1"]), hx("c"), "m" + hx("ok1")))
+            reqs.append("%s:~:%s=%s&%s=%s" % (hx(m), hx("n"), rng.choice(["i0", "i1", "t" + hx("1.0")] if sibling else ["i2", "i3", "i5", "i22", "i1"]), hx("c"), "m" + hx("ok1")))
         opts = "iso=0;tr=%s;fm=none;fl=conc" % rng.choice(["none", "pseudo"])
         body = "a:%s %s %s" % (hx(prog), ",".join(resgen.FUNCS), ",".join(reqs))
         return "fmt %s;loc=%s;loc2=%s;duo=%d %s" % (opts, l1, l2, rounds, body)
